@@ -26,11 +26,12 @@ def _pro(it, p, b):
         it.stop(b)
 
 
-def tpl_stop(size, m1, p1, b1, p2, b2, m2, sa, n, _twin=False):
+def tpl_stop(size, m1, p1, b1, p2, b2, m2, sa, n, sw=0, _twin=False):
     w = World("c14.stop")
     code = 0
     try:
-        pool = SimpleTaskPool(w.worker(0), pool_size=size)
+        # sw == 1: workers treat their first cancellation as a request and carry on (they stay *running*)
+        pool = SimpleTaskPool(w.worker(0, swallow=(1 if sw == 1 else 0)), pool_size=size)
         it = Interp(w, pool, cbkind=0)
         try:
             it.start(m1); w.settle()
@@ -39,6 +40,7 @@ def tpl_stop(size, m1, p1, b1, p2, b2, m2, sa, n, _twin=False):
             it.start(m2); w.settle()
             running = sorted((x["id"] for x in w.W if x["state"] == "run"), reverse=True)
             before = [(x["state"], x["cancels"]) for x in w.W]
+            left0 = [x["left"] for x in w.W]
             if sa == 1:
                 w.op("stop_all")
                 exp = list(running)
@@ -61,7 +63,8 @@ def tpl_stop(size, m1, p1, b1, p2, b2, m2, sa, n, _twin=False):
                     if j >= len(before):
                         continue    # started after the stop (a waiting start() request got the freed room)
                     if x["id"] in exp:
-                        if x["state"] != "cancelled" or x["cancels"] != before[j][1] + 1:
+                        want = "run" if left0[j] > 0 else "cancelled"
+                        if x["state"] != want or x["cancels"] != before[j][1] + 1:
                             code = 1402
                     elif (x["state"], x["cancels"]) != before[j]:
                         code = 1403
@@ -79,13 +82,13 @@ def tpl_stop(size, m1, p1, b1, p2, b2, m2, sa, n, _twin=False):
 def families(tier):
     thorough = tier == "thorough"
     mm = 4 if thorough else 3
-    P = ["size", "m1", "p1", "b1", "p2", "b2", "m2", "sa", "n"]
-    pre = ["size >= 0", "0 <= m1 <= %d" % mm, "0 <= p1 <= 4", "b1 >= -1", "0 <= p2 <= 4", "b2 >= -1", "0 <= m2 <= 2", "0 <= sa <= 1"]
+    P = ["size", "m1", "p1", "b1", "p2", "b2", "m2", "sa", "n", "sw"]
+    pre = ["size >= 0", "0 <= m1 <= %d" % mm, "0 <= p1 <= 4", "b1 >= -1", "0 <= p2 <= 4", "b2 >= -1", "0 <= m2 <= 2", "0 <= sa <= 1", "0 <= sw <= 1"]
     if not thorough:
-        pre += ["size >= 6", "m1 == 3", "sa == 0 or n == 0", "b1 <= 2", "b2 <= 2"]
+        pre += ["size >= 6", "m1 == 3", "sa == 0 or n == 0", "b1 <= 2", "b2 <= 2", "sw == 0 or (p1 == 3 and p2 == 4)"]
         parts = parts_product(p1=range(5), p2=(0, 1, 4), m2=(0, 2))
     else:
         pre += ["sa == 0 or n == 0", "size >= 3", "m1 >= 3", "b1 <= 3", "b2 <= 3"]
         parts = parts_product(m1=(3, 4), p1=range(5), p2=range(5), m2=range(3))
     return [Family(name="stop", fn="tpl_stop", params=P, pre=pre, parts=parts,
-                   twin_pre=["m1 == 3", "p1 == 0", "p2 == 4", "m2 == 2", "sa == 0"], twin_args=[9, 3, 0, 1, 4, 0, 2, 0, 2])]
+                   twin_pre=["m1 == 3", "p1 == 0", "p2 == 4", "m2 == 2", "sa == 0"], twin_args=[9, 3, 0, 1, 4, 0, 2, 0, 2, 0])]
